@@ -172,7 +172,6 @@ class Scheduler:
         if self.cluster.check_ingest_capacity(pipeline_demand, max_ingest):
             if self.provision_ingest + pipeline_demand <= max_ingest:
                 cluster_capacity = True
-                self.provision_ingest += pipeline_demand
                 LOGGER.debug(
                     "Cluster is able to process ingest for observation %s",
                     observation.name)
@@ -182,6 +181,10 @@ class Scheduler:
                 LOGGER.debug('Cluster is unable to process ingest as two'
                              'observations are scheduled at the same time')
 
+        if buffer_capacity and cluster_capacity:
+            # Reserve the ingest machines only when the observation will
+            # actually start; allocate_ingest releases them again.
+            self.provision_ingest += pipeline_demand
         return buffer_capacity and cluster_capacity
 
     def allocate_ingest(self, observation, pipelines, planner, max_ingest=None,
